@@ -18,15 +18,15 @@ theorem hashPhase_total (t : SymTab) (ht : TabOk t) (hsmall : ∀ h, t.hash = so
   | some h =>
     have hs := ht.hash h hh
     dsimp only
-    have h1 : ∃ r, (if (h.stype == BitVec.ofNat 32 SHT_HASH) = true then TQ.hashLookup t h name a
+    have h1 : ∃ r, (if tq_sym_hash_is_sysv h.stype = true then TQ.hashLookup t h name a
         else pure (false, a)) = .ok r := by
-      by_cases hc : (h.stype == BitVec.ofNat 32 SHT_HASH) = true
+      by_cases hc : tq_sym_hash_is_sysv h.stype = true
       · rw [if_pos hc]; exact hashLookup_total t ht h hs name a
       · rw [if_neg hc]; exact ⟨_, rfl⟩
     obtain ⟨r1, hr1⟩ := h1
     rw [hr1]
     dsimp only
-    by_cases hc : (h.stype == BitVec.ofNat 32 SHT_GNU_HASH || h.stype == BitVec.ofNat 32 DT_GNU_HASH) = true
+    by_cases hc : tq_sym_hash_is_gnu h.stype = true
     · rw [if_pos hc]; exact gnuLookup_total t ht h hs (hsmall h hh) name r1.2
     · rw [if_neg hc]; exact ⟨_, rfl⟩
 
@@ -37,12 +37,12 @@ theorem getByName_total (t : SymTab) (ht : TabOk t) (hsmall : ∀ h, t.hash = so
   obtain ⟨r, hr⟩ := hashPhase_total t ht hsmall name a
   rw [hr]
   dsimp only
-  by_cases h1 : r.1 = true
-  · rw [if_pos h1]; exact ⟨_, rfl⟩
-  rw [if_neg h1]
-  obtain ⟨n, hn, -, -⟩ := symbolsNum_spec t
-  rw [hn]
-  exact linearGo_total t ht name _ _ _
+  by_cases h1 : tq_sym_linear_needed r.1 = true
+  · rw [if_pos h1]
+    obtain ⟨n, hn, -, -⟩ := symbolsNum_spec t
+    rw [hn]
+    exact linearGo_total t ht name _ _ _
+  · rw [if_neg h1]; exact ⟨_, rfl⟩
 
 /-! ### arrays and symbol-version indices -/
 
